@@ -7,7 +7,7 @@
 From Coq Require Import Ascii String List Bool Arith ZArith NArith Lia.
 From PTBase Require Import Exn PyStr PyNum PyVal.
 From PTModel Require Import Fortran.
-From P Require Import Model Table Reader TableT2 SetT2 CodecT2 TableAUT.
+From P Require Import Model Table Reader TableT2 SetT2 FileT2 CodecT2 CheckT2 FileG TableAUT.
 Import ListNotations.
 Open Scope char_scope.
 
@@ -185,6 +185,110 @@ Proof.
     rewrite (IH f _ Hok' ltac:(cbn [length] in Hf; lia) H5). cbn [bind]. replace (str_eqb kwE (kw5 "E")) with true by reflexivity. reflexivity.
 Qed.
 
+(** ** short output: xSHORT blocks between the full result sets
+
+    With short output setup_pos_AUTOUGH2 looks for 'EEEEE' or the first short keyword (ESHORT / CSHORT / GSHORT, whichever
+    setup_short_types met first).  A short block = its keyword line, three header lines, one more line, lines without that
+    keyword, and the closing keyword line; it is passed over.  [scanb] recognises a stretch of lines that holds only such
+    blocks (and no 'EEEEE' line) and counts them. *)
+Definition trigA (ks : list str) (l : str) : bool := match List.find (fun kw => starts_at 1 kw l) ks with Some _ => true | None => false end.
+Fixpoint scanb (fuel : nat) (ks : list str) (g : list str) : option nat :=
+  match fuel with
+  | O => None
+  | S f =>
+      match break_at (trigA ks) g with
+      | None => Some 0
+      | Some (_, l, rest) =>
+          match List.find (fun kw => starts_at 1 kw l) ks with
+          | Some kw => if str_eqb kw kwE then None
+                       else match rest with
+                            | _ :: _ :: _ :: _ :: rest2 =>
+                                match break_at (starts_at 1 kw) rest2 with
+                                | Some (_, _, rest3) => option_map S (scanb f ks rest3)
+                                | None => None
+                                end
+                            | _ => None
+                            end
+          | None => None
+          end
+      end
+  end.
+Lemma skipto_quiet ks start q r : Forall (fun l => List.find (fun kw => starts_at start kw l) ks = None) q -> skipto ks start (q ++ r) = skipto ks start r.
+Proof. induction 1 as [|x q H _ IH]; cbn [app skipto]; [reflexivity|]. rewrite H. exact IH. Qed.
+Lemma bind_ret_list (x : res (list cur)) : (do r <- x; Ok r) = x.
+Proof. destruct x; reflexivity. Qed.
+Lemma scan_spec fuel ks : forall g nb, scanb fuel ks g = Some nb -> forall f r, setup_pos_AUT (nb + f) ks (g ++ r) = setup_pos_AUT f ks r.
+Proof.
+  induction fuel as [|fu IH]; intros g nb H f r; cbn [scanb] in H; [discriminate|].
+  destruct (break_at (trigA ks) g) as [[[q l] rest]|] eqn:E.
+  - destruct (break_at_spec _ _ _ _ _ E) as [E1 [E2 E3]]. unfold trigA in E3.
+    destruct (List.find (fun kw => starts_at 1 kw l) ks) as [kw|] eqn:Ef; [|discriminate].
+    destruct (str_eqb kw kwE) eqn:Ek; [discriminate|]. destruct rest as [|a [|b [|c [|d rest2]]]]; try discriminate.
+    destruct (break_at (starts_at 1 kw) rest2) as [[[body e] rest3]|] eqn:E4; [|discriminate].
+    destruct (scanb fu ks rest3) as [nb'|] eqn:E5; [|discriminate]. cbn [option_map] in H. inversion H; subst nb.
+    destruct (break_at_spec _ _ _ _ _ E4) as [F1 [F2 F3]].
+    cbn [Nat.add setup_pos_AUT]. subst g. rewrite <- app_assoc. cbn [app].
+    rewrite skipto_quiet.
+    2:{ eapply Forall_impl; [|exact E2]. intros x Hx. unfold trigA in Hx. destruct (List.find (fun kw0 => starts_at 1 kw0 x) ks); [discriminate|reflexivity]. }
+    cbn [skipto]. rewrite Ef. unfold read_header_AUT. cbn [readline skiplines skipn].
+    rewrite F1, <- app_assoc. cbn [app]. rewrite (skipto1_app 1 kw body e _ F2 F3). cbn [snd].
+    rewrite (IH rest3 nb' E5 f r). unfold kwE in Ek. rewrite Ek. apply bind_ret_list.
+  - inversion H; subst nb. cbn [Nat.add]. destruct f as [|f']; [reflexivity|]. cbn [setup_pos_AUT].
+    rewrite skipto_quiet; [reflexivity|]. clear - E. revert E. induction g as [|x g IHg]; intro E; [constructor|]. cbn [break_at] in E.
+    destruct (trigA ks x) eqn:Ex; [discriminate|]. destruct (break_at (trigA ks) g) as [[[? ?] ?]|] eqn:Eg; [discriminate|].
+    constructor; [unfold trigA in Ex; destruct (List.find (fun kw => starts_at 1 kw x) ks); [discriminate|reflexivity]|apply IHg; reflexivity].
+Qed.
+Lemma scanb_bound fuel ks : forall g nb, scanb fuel ks g = Some nb -> nb <= length g.
+Proof.
+  induction fuel as [|fu IH]; intros g nb H; cbn [scanb] in H; [discriminate|].
+  destruct (break_at (trigA ks) g) as [[[q l] rest]|] eqn:E; [|inversion H; lia].
+  destruct (break_at_spec _ _ _ _ _ E) as [E1 _]. destruct (List.find (fun kw => starts_at 1 kw l) ks) as [kw|]; [|discriminate].
+  destruct (str_eqb kw kwE); [discriminate|]. destruct rest as [|a [|b [|c [|d rest2]]]]; try discriminate.
+  destruct (break_at (starts_at 1 kw) rest2) as [[[body e] rest3]|] eqn:E4; [|discriminate].
+  destruct (break_at_spec _ _ _ _ _ E4) as [F1 _].
+  destruct (scanb fu ks rest3) as [nb'|] eqn:E5; [|discriminate]. cbn [option_map] in H. inversion H; subst nb.
+  pose proof (IH _ _ E5). subst g rest2. rewrite !app_length. cbn [length]. rewrite !app_length. cbn [length]. lia.
+Qed.
+(** the stretches between the keyword lines of the full result sets *)
+Record aset_ok2 (x : aset) : Prop := {
+  a2_kw : starts_at 1 kwE (s_kwl x) = true;
+  a2_first : Forall noE (a_cap (s_first x) :: a_b1 (s_first x) :: a_hdr (s_first x) :: a_b2 (s_first x) :: a_rows (s_first x));
+  a2_kend : starts_at 1 kwE (a_kend (s_first x)) = true
+}.
+Fixpoint gaps_okA (ks : list str) (z : list str) (sets : list aset) : option nat :=
+  match sets with
+  | [] => scanb (S (length z)) ks z
+  | x :: r => match scanb (S (length (z ++ s_pre x))) ks (z ++ s_pre x), gaps_okA ks (a_after (s_first x) :: arest (s_more x) (s_post x)) r with
+              | Some a, Some b => Some (a + b)
+              | _, _ => None
+              end
+  end.
+Lemma setup_pos_AUT_gen ks' sets : forall z N f, Forall aset_ok2 sets -> gaps_okA (kwE :: ks') z sets = Some N -> length sets < f ->
+  setup_pos_AUT (N + f) (kwE :: ks') (z ++ afile sets) = Ok (apositions sets).
+Proof.
+  induction sets as [|x sets IH]; intros z N f Hok HN Hf; cbn [gaps_okA] in HN.
+  - cbn [afile apositions]. rewrite (scan_spec _ _ _ _ HN f []). destruct f as [|f']; [lia|]. reflexivity.
+  - destruct (scanb (S (length (z ++ s_pre x))) (kwE :: ks') (z ++ s_pre x)) as [a|] eqn:Ea; [|discriminate].
+    destruct (gaps_okA (kwE :: ks') (a_after (s_first x) :: arest (s_more x) (s_post x)) sets) as [b|] eqn:Eb; [|discriminate]. inversion HN; subst N.
+    inversion Hok as [|? ? [H2 H3 H4] Hok']; subst.
+    cbn [afile apositions]. rewrite app_assoc. replace (a + b + f) with (a + (b + f)) by lia. rewrite (scan_spec _ _ _ _ Ea).
+    destruct f as [|f']; [cbn in Hf; lia|]. replace (b + S f') with (S (b + f')) by lia. cbn [setup_pos_AUT skipto List.find]. rewrite H2.
+    unfold aset_body at 1. rewrite read_header_a_lines. unfold a_body. cbn [app skiplines skipn].
+    replace (a_cap (s_first x) :: a_b1 (s_first x) :: a_hdr (s_first x) :: a_b2 (s_first x) :: (a_rows (s_first x) ++ [a_kend (s_first x); a_after (s_first x)]) ++ arest (s_more x) (s_post x ++ afile sets))
+      with ((a_cap (s_first x) :: a_b1 (s_first x) :: a_hdr (s_first x) :: a_b2 (s_first x) :: a_rows (s_first x)) ++ a_kend (s_first x) :: (a_after (s_first x) :: arest (s_more x) (s_post x)) ++ afile sets)
+      by (cbn [app]; rewrite <- !app_assoc; cbn [app]; rewrite arest_app; reflexivity).
+    rewrite (skipto1_app 1 kwE _ _ _ H3 H4). cbn [snd].
+    rewrite (IH _ b f' Hok' Eb ltac:(cbn [length] in Hf; lia)). cbn [bind]. replace (str_eqb kwE (kw5 "E")) with true by reflexivity. reflexivity.
+Qed.
+Lemma gaps_bound ks sets : forall z N, gaps_okA ks z sets = Some N -> N + length sets <= length (z ++ afile sets).
+Proof.
+  induction sets as [|x sets IH]; intros z N H; cbn [gaps_okA afile] in *.
+  - rewrite app_nil_r. pose proof (scanb_bound _ _ _ _ H). cbn [length]. lia.
+  - destruct (scanb _ ks (z ++ s_pre x)) as [a|] eqn:Ea; [|discriminate]. destruct (gaps_okA ks _ sets) as [b|] eqn:Eb; [|discriminate]. inversion H; subst N.
+    pose proof (scanb_bound _ _ _ _ Ea). pose proof (IH _ _ Eb). unfold aset_body. rewrite !app_length in *. cbn [length] in *. rewrite !app_length in *.
+    rewrite arest_app, app_length in *. cbn [length] in *. assert (1 <= length (a_lines (s_first x))) by (unfold a_lines; cbn [length]; lia). lia.
+Qed.
+
 (** ** the whole-file statement *)
 Fixpoint adec (Ts : list ltable) (us : list atable) : list tdata :=
   match Ts, us with T :: Ts', u :: us' => map (decode_AUT T) (a_rows u) :: adec Ts' us' | _, _ => [] end.
@@ -223,8 +327,8 @@ Section CodecAUT.
   Let sets := x0 :: more_sets.
   Let names := map a_name (aset_tables x0).
   Record afile_ok : Prop := {
-    fa_sets : Forall aset_ok sets;
-    fa_short : Forall no_short (afile sets);
+    fa_sets : Forall aset_ok2 sets;
+    fa_scan : exists sh N, setup_short_types (S (length (afile sets))) [] (afile sets) = Ok sh /\ gaps_okA (kwE :: firstn 1 sh) [] sets = Some N;
     fa_stops : stops_ok sets;
     fa_elem : a_name (s_first x0) = n_element;
     fa_shape : Forall2 (fun t T => exists nkeys cols st keypos keys, ashape t nkeys cols st keypos keys /\ T = table_of_AUT cols nkeys st keypos keys) (aset_tables x0) Ts;
@@ -341,11 +445,11 @@ Section CodecAUT.
   Theorem aut_open_spec skip : open_listing AUT skip (afile sets) = Ok (astate_at skip 0 x0).
   Proof.
     pose proof (fa_sets OK) as Hsets. unfold open_listing. cbn [sim_eqb].
-    assert (Hsh : setup_short_types (S (length (afile sets))) [] (afile sets) = Ok []).
-    { cbn [setup_short_types]. rewrite (skipto_none short_kws 1 (afile sets) (fa_short OK)). reflexivity. }
-    rewrite Hsh. cbn [bind firstn].
-    pose proof (setup_pos_AUT_spec sets (S (length (afile sets))) [] Hsets ltac:(pose proof (afile_length sets); lia) (Forall_nil _)) as Hpos.
-    cbn [app] in Hpos. fold kwE. rewrite Hpos. cbn [bind].
+    destruct (fa_scan OK) as [sh [N [Hsh HN]]]. rewrite Hsh. cbn [bind].
+    pose proof (gaps_bound _ _ _ _ HN) as HB. cbn [app] in HB.
+    pose proof (setup_pos_AUT_gen (firstn 1 sh) sets [] N (S (length (afile sets)) - N) Hsets HN ltac:(lia)) as Hpos.
+    cbn [app] in Hpos. replace (N + (S (length (afile sets)) - N)) with (S (length (afile sets))) in Hpos by lia.
+    fold kwE. rewrite Hpos. cbn [bind].
     assert (Epos : apositions sets = aset_body x0 (afile more_sets) :: apositions more_sets) by reflexivity.
     rewrite Epos. rewrite <- Epos.
     destruct (aset_like x0 (or_introl eq_refl)) as [_ [Hkn _]].
